@@ -26,6 +26,7 @@ EXPLANATION = (
     'calls it for every meter (the loop is left only when the callback says stop), Meter::Collect collects every registered storage.')
 EXPLANATION += " C06.R3 also requires that the map stored as the reader's reported state is, on every path, the one the reader's unreported list was merged into (never re-assigned); C06.R4 that every report on the stash path is preceded by storing the current collection time for the reader."
 ROUND2_EXPLANATION = (' C06.R8: MetricCollector::GetAggregationTemporality asks the reader with the instrument-type parameter on every path and writes no member. C06.R9: every callback of buildMetrics that stores into the merged map looks the attribute set up first and overwrites only with a value built from the found aggregation. Shared C08.R1: series-key equality compares contents.')
+ROUND2_EXPLANATION += (" C06.R10 (TemporalMetricStorage::buildMetrics): every MetricData handed to the reader callback has descriptor, temporality (the collector's answer, or the literal behind the equality test of that answer), start time and end time (the collection timestamp parameter) assigned on every path, and every point appended to it has attributes and data; the collector's unreported stash is moved out / erased before every report that follows its lookup; the walk that folds the last reported state into the result lies behind the outcome 'temporality == cumulative'.")
 EXPLANATION += ROUND2_EXPLANATION
 NOT_DECIDED = 'exact conservation of sums over arbitrary histories and races (arithmetic), cumulative totals over time.'
 
@@ -587,6 +588,186 @@ def rule_r9(ck, prog, rule='C06.R9'):
         raise AnalysisBroken('C06.R9: fewer than two folding callbacks found in buildMetrics')
 
 
+def rule_r10_report(ck, prog, rule='C06.R10'):
+    """what buildMetrics hands to the reader, and what it keeps:
+    (a) every MetricData passed to the callback has its descriptor, temporality, start and end time assigned, the end time from the
+        collection timestamp parameter, the temporality from the collector's answer (or the literal kDelta behind the test of that
+        answer against kDelta); every point appended to it has attributes and point data assigned;
+    (b) the collector's stash of unreported deltas is taken out of the table (moved from / erased / cleared) before the report - a
+        stash that stays is reported again at the next collection (double counting);
+    (c) the previous cumulative state is merged only behind the outcome "this collector is cumulative"."""
+    f = prog.function('sdk::metrics::TemporalMetricStorage::buildMetrics')
+    g = Graph(prog, f, inline=None, sync_lambdas=False)
+    rd = reaching_defs(g)
+    lams = [x for x in prog.funcs.values() if x.d.get('lambda') and x.d.get('parent') == f.key]
+    cbp = [p_ for p_ in f.params if 'function_ref' in p_['t'] and 'MetricData' in p_['t']]
+    tsp = [p_ for p_ in f.params if 'SystemTimestamp' in p_['t']]
+    if not cbp or len(tsp) < 2:
+        raise AnalysisBroken('buildMetrics: callback / timestamp parameters not found')
+    coll_ts = tsp[-1]
+    reports = [p for p in g.points if p.n is not None and p.f is f and p.n['k'] == 'call' and
+               any(f.nodes[j]['k'] == 'ref' and f.nodes[j].get('id') == cbp[0]['id'] for j in ([p.n['obj']] if p.n.get('obj') is not None else []) + ([p.n['fx']] if p.n.get('fx') is not None else []))]
+    if not reports:
+        raise AnalysisBroken('buildMetrics: no call of the report callback')
+    temp_vars = {d['id'] for n in f.nodes if n['k'] == 'declstmt' for d in n['decls'] if d.get('init') is not None and d['init'] >= 0 and
+                 any(f.nodes[j]['k'] == 'call' and strip_targs(f.nodes[j].get('c', '')).endswith('GetAggregationTemporality') for j in list(f.subtree(d['init'])) + [d['init']])}
+    for k_, rp in enumerate(reports):
+        md = [strip_casts(f, a) for a in rp.n.get('args', []) if a is not None and a >= 0]
+        while md and md[0]['k'] == 'construct' and md[0].get('args'):
+            md = [strip_casts(f, md[0]['args'][0])]
+        site = 'report-complete@%d' % k_
+        if not md or md[0]['k'] != 'ref' or md[0].get('sk') != 'local':
+            ck.inconclusive(rule, f, site, rp.n, 'the reported MetricData is not a local of buildMetrics')
+            continue
+        root = 'local:%s:%s' % (md[0]['id'], md[0]['name'])
+        stores = {}
+        for p in g.points:
+            n = p.n
+            if n is None or p.f is not f:
+                continue
+            lhs = n['lhs'] if (n['k'] == 'binop' and n['op'] == '=') else (n.get('obj') if (n['k'] == 'call' and n.get('op') == '=') else None)
+            rhs = n['rhs'] if (n['k'] == 'binop' and n['op'] == '=') else (n['args'][-1] if (n['k'] == 'call' and n.get('op') == '=' and n.get('args')) else None)
+            if lhs is None:
+                continue
+            ap = access_path(f, lhs)
+            if len(ap) == 2 and ap[0] == root:
+                stores.setdefault(ap[1], []).append((p, rhs))
+        need = ('instrument_descriptor', 'aggregation_temporality', 'start_ts', 'end_ts')
+        missing = [x for x in need if not stores.get(x) or not g.must_pass(rp, [p for (p, _r) in stores[x]])]
+        why = None
+        if missing:
+            why = 'the report is handed to the reader without %s being set' % ', '.join(missing)
+        if why is None:
+            for (p, r_) in stores['end_ts']:
+                if rp.id in g.reachable_from([p]) and strip_casts(f, r_).get('id') != coll_ts['id'] and \
+                        not any(f.nodes[j]['k'] == 'ref' and f.nodes[j].get('id') == coll_ts['id'] for j in list(f.subtree(r_)) + [r_]):
+                    why = 'the end time of the report is not the collection timestamp'
+        if why is None:
+            for (p, r_) in stores['aggregation_temporality']:
+                if rp.id not in g.reachable_from([p]):
+                    continue
+                rn = strip_casts(f, r_)
+                if rn['k'] == 'ref' and rn.get('id') in temp_vars:
+                    continue
+                if rn.get('sk') == 'enum':
+                    # a literal: only behind the test "the collector's answer equals this literal"
+                    def eq_edge(a, b, lab, _v=rn.get('v')):
+                        if not lab or not isinstance(lab[0], int) or lab[1] is not f:
+                            return False
+                        core, pol = norm_cond(f, lab[0])
+                        c = comparison(f, core)
+                        if not c or c[0] not in ('==', '!='):
+                            return False
+                        sides = [strip_casts(f, c[1]), strip_casts(f, c[2])]
+                        if any(x.get('id') in temp_vars for x in sides) and any(x.get('sk') == 'enum' and x.get('v') == _v for x in sides):
+                            return ((lab[2] if pol else not lab[2]) is (c[0] == '=='))
+                        return False
+                    if g.must_pass_edge(p, eq_edge):
+                        continue
+                why = 'the temporality written into the report is not the one this collector asked for'
+        # points
+        if why is None:
+            for lf in lams:
+                pts = [d for n in lf.nodes if n['k'] == 'declstmt' for d in n['decls'] if 'PointDataAttributes' in (d.get('t') or '')]
+                for d in pts:
+                    lg = Graph(prog, lf, inline=None, sync_lambdas=False)
+                    flds = {}
+                    for p in lg.points:
+                        n = p.n
+                        if n is None or p.f is not lf:
+                            continue
+                        lhs = n['lhs'] if (n['k'] == 'binop' and n['op'] == '=') else (n.get('obj') if (n['k'] == 'call' and n.get('op') == '=') else None)
+                        if lhs is None:
+                            continue
+                        ap = access_path(lf, lhs)
+                        if len(ap) == 2 and ap[0] == 'local:%s:%s' % (d['id'], d['name']):
+                            flds.setdefault(ap[1], []).append(p)
+                    adds = [p for p in lg.points if p.n is not None and p.f is lf and p.n['k'] == 'call' and strip_targs(p.n.get('c', '')).rsplit('::', 1)[-1] in ('emplace_back', 'push_back') and
+                            any(lf.nodes[j]['k'] == 'ref' and lf.nodes[j].get('id') == d['id'] for a in p.n.get('args', []) if a is not None and a >= 0 for j in list(lf.subtree(a)) + [a])]
+                    for fld in ('attributes', 'point_data'):
+                        if adds and (not flds.get(fld) or not all(lg.must_pass(a_, flds[fld]) for a_ in adds)):
+                            why = 'a point is appended to a report without its %s' % fld
+        ck.verdict(why is None, rule, f, site, rp.n, 'descriptor, temporality (the collector\'s), start time and end time (the collection timestamp) are set; every point has attributes and data' if why is None else
+                   'buildMetrics: %s' % why)
+    # (b) stash taken out
+    finds = [d for n in f.nodes if n['k'] == 'declstmt' for d in n['decls'] if d.get('init') is not None and d['init'] >= 0 and
+             any(f.nodes[j]['k'] == 'call' and strip_targs(f.nodes[j].get('c', '')).rsplit('::', 1)[-1] == 'find' and f.nodes[j].get('obj') is not None and
+                 access_path(f, f.nodes[j]['obj'])[:1] == ('this',) and 'unreported' in path_str(access_path(f, f.nodes[j]['obj'])) for j in list(f.subtree(d['init'])) + [d['init']])]
+    stash_fields = [fd['name'] for fd in prog.record('sdk::metrics::TemporalMetricStorage')['fields'] if 'unordered_map' in fd['t'] and 'vector' in fd['t'] or 'list<' in fd['t']]
+    takes = []
+    find_ids = {d['id'] for d in finds}
+
+    def is_found_second(idx):
+        # <iterator returned by the stash lookup>->second
+        m = strip_casts(f, idx)
+        if m['k'] != 'member' or m.get('name') != 'second' or m.get('base') is None:
+            return False
+        b = strip_casts(f, m['base'])
+        while b['k'] == 'call' and b.get('op') in ('->', '*') and b.get('obj') is not None:
+            b = strip_casts(f, b['obj'])
+        while b['k'] == 'unop' and b.get('op') == '*':
+            b = strip_casts(f, b['e'])
+        return b['k'] == 'ref' and b.get('id') in find_ids
+    for n in f.nodes:
+        if n['k'] == 'call' and strip_targs(n.get('c', '')) == 'std::move' and n.get('args') and is_found_second(n['args'][0]):
+            takes.append(n)
+        if n['k'] == 'call' and strip_targs(n.get('c', '')).rsplit('::', 1)[-1] in ('erase', 'clear', 'extract') and n.get('obj') is not None:
+            ap = access_path(f, n['obj'])
+            if (ap[:1] == ('this',) and len(ap) == 2 and ap[1] in stash_fields) or is_found_second(n['obj']):
+                takes.append(n)
+    if not finds:
+        ck.inconclusive(rule, f, 'stash-taken-out', None, 'lookup of the collector\'s unreported stash not recognised')
+    else:
+        take_ids = {t_['i'] for t_ in takes}
+        tp = [p for p in g.points if p.f is f and p.n is not None and (p.n['i'] in take_ids or (p.n['k'] in ('declstmt', 'call', 'construct', 'binop') and take_ids & set(f.subtree(p.n['i']))))]
+        # the reports that come after the stash lookup (the single-reader fast path never touches the stash)
+        fpts = [p for p in g.points if p.f is f and p.n is not None and p.n['k'] == 'declstmt' and any(d['id'] in find_ids for d in p.n['decls'])]
+        after = g.reachable_from(fpts) if fpts else set()
+        later = [r for r in reports if r.id in after]
+        ok = bool(tp) and bool(later) and all(g.must_pass(r, tp) for r in later)
+        ck.verdict(ok, rule, f, 'stash-taken-out', (takes or [None])[0], 'the collector\'s unreported deltas are moved out of the stash before they are reported' if ok else
+                   'buildMetrics reports the collector\'s unreported deltas but leaves them in the stash: the next collection of this reader reports them again (sums counted twice)')
+    # (c) previous cumulative state merged only for a cumulative collector
+    merges = []
+    for p in g.points:
+        n = p.n
+        if n is None or p.f is not f or n['k'] != 'call' or not strip_targs(n.get('c', '')).endswith('GetAllEnteries') or n.get('obj') is None:
+            continue
+        o = strip_casts(f, n['obj'])
+        while o['k'] == 'call' and o.get('op') in ('->', '*') and o.get('obj') is not None:
+            o = strip_casts(f, o['obj'])
+        lam_merges = any(x['k'] == 'call' and strip_targs(x.get('c', '')).endswith('Aggregation::Merge') for a in n.get('args', []) if a is not None and a >= 0
+                         for j in list(f.subtree(a)) + [a] if f.nodes[j]['k'] == 'lambda' and f.nodes[j].get('fn') in prog.funcs for x in prog.funcs[f.nodes[j]['fn']].nodes)
+        if o['k'] == 'ref' and o.get('sk') == 'local' and lam_merges:
+            init = [d for m in f.nodes if m['k'] == 'declstmt' for d in m['decls'] if d['id'] == o['id'] and d.get('init') is not None and d['init'] >= 0]
+            if init and any(f.nodes[j]['k'] == 'member' and 'last_reported' in (f.nodes[j].get('name') or '') or
+                            (f.nodes[j]['k'] == 'member' and f.nodes[j].get('name') == 'attributes_map') for j in list(f.subtree(init[0]['init'])) + [init[0]['init']]):
+                merges.append(p)
+
+    def cumulative_edge(a, b, lab):
+        if not lab or not isinstance(lab[0], int) or lab[1] is not f:
+            return False
+        core, pol = norm_cond(f, lab[0])
+        c = comparison(f, core)
+        if not c or c[0] not in ('==', '!='):
+            return False
+        sides = [strip_casts(f, c[1]), strip_casts(f, c[2])]
+        if not any(x.get('id') in temp_vars for x in sides):
+            return False
+        lit = [x for x in sides if x.get('sk') == 'enum']
+        if not lit:
+            return False
+        is_cum = (lit[0].get('qn') or lit[0].get('name') or '').endswith('kCumulative')
+        eq = (lab[2] if pol else not lab[2]) is (c[0] == '==')
+        return eq if is_cum else (not eq)
+    if not merges:
+        ck.inconclusive(rule, f, 'previous-state-merged-iff-cumulative', None, 'the walk over the last reported state was not recognised')
+    else:
+        ok = all(g.must_pass_edge(p, cumulative_edge) for p in merges)
+        ck.verdict(ok, rule, f, 'previous-state-merged-iff-cumulative', merges[0].n, 'the last reported state is folded in only behind "temporality == cumulative"' if ok else
+                   'the previously reported state is folded into the report of a collector that is not (known to be) cumulative: a delta reader receives running totals (or a cumulative one only deltas)')
+
+
 def run(ck, prog):
     ck.doc('C06.R1', 'lock-field association: table + Aggregate under the table lock; stashes under their lock; sum point under its lock', 10)
     ck.doc('C06.R2', 'every Add/Record overload forwards value/attributes/context to the matching storage call; multi storage to all', 20)
@@ -595,6 +776,7 @@ def run(ck, prog):
     ck.doc('C06.R5', 'registry writes in the per-view callback use a view-dependent key', 2)
     ck.doc('C06.R6', 'Sum Merge = this + delta, Diff = next - this', 4)
     ck.doc('C06.R7', 'collection fan-in: every meter and every storage is visited; iteration callbacks never ask to stop', 3)
+    ck.doc('C06.R10', 'buildMetrics report: descriptor / collector temporality / start / collection end time set, every point complete; the unreported stash is taken out before the report; previous state merged only for a cumulative collector', 4)
     ck.doc('C06.R9', 'folding intervals accumulates: stores into the merged map look the attribute set up first and overwrite only with a value built from the found aggregation', 2)
     ck.doc('C06.R8', 'a collector answers with the reader\'s temporality for this instrument type on this call (asked on every path, no cached state)', 2)
     ck.doc('C08.R2', '(shared rule, see C08) every constructor / mutation of the series key ends in UpdateHash()', 5)
@@ -613,6 +795,7 @@ def run(ck, prog):
     rule_r7(ck, prog)
     rule_r8(ck, prog)
     rule_r9(ck, prog)
+    rule_r10_report(ck, prog)
     from . import c08
     c08.rule_r4(ck, prog)
     c08.rule_r2(ck, prog)
